@@ -15,7 +15,7 @@ func OpenString(L *LState) int {
 	//_, ok := L.G.builtinMts[int(LTString)]
 	//if !ok {
 	mod = L.RegisterModule(StringLibName, strFuncs).(*LTable)
-	gmatch := L.NewClosure(strGmatch, L.NewFunction(strGmatchIter))
+	gmatch := L.NewFunction(strGmatch)
 	mod.RawSetString("gmatch", gmatch)
 	mod.RawSetString("gfind", gmatch)
 	mod.RawSetString("__index", mod)
@@ -348,8 +348,8 @@ type strMatchData struct {
 	matches []*pm.MatchData
 }
 
-func strGmatchIter(L *LState) int {
-	md := L.CheckUserData(1).Value.(*strMatchData)
+// strGmatchIter is the body of the closure string.gmatch returns; md is its private state.
+func strGmatchIter(L *LState, md *strMatchData) int {
 	str := md.str
 	matches := md.matches
 	idx := md.pos
@@ -357,7 +357,6 @@ func strGmatchIter(L *LState) int {
 		return 0
 	}
 	md.pos += 1
-	L.Push(L.Get(1))
 	match := matches[idx]
 	if match.CaptureLength() == 2 {
 		L.Push(LString(str[match.Capture(0):match.Capture(1)]))
@@ -385,11 +384,10 @@ func strGmatch(L *LState) int {
 	if err != nil {
 		L.RaiseError(err.Error())
 	}
-	L.Push(L.Get(UpvalueIndex(1)))
-	ud := L.NewUserData()
-	ud.Value = &strMatchData{str, 0, mds}
-	L.Push(ud)
-	return 2
+	// one self-contained iterator function, as in Lua 5.1: it can be called outside a generic for
+	md := &strMatchData{str, 0, mds}
+	L.Push(L.NewFunction(func(L *LState) int { return strGmatchIter(L, md) }))
+	return 1
 }
 
 func strLen(L *LState) int {
